@@ -419,6 +419,21 @@ func (h *Hist) randomEvent() string {
 			return "odd-size-node"
 		}
 	case 16:
+		if focus == "multi" && len(h.cfgs) > 1 && r.chance(50) {
+			// a node labelled for this group whose instance lives in another group's ASG
+			other := (gi + 1) % len(h.cfgs)
+			cpu, mem := h.groupNodeSize(gi)
+			n := h.addNode(gi, cpu, mem, int64(r.pickI(0, 500)), false)
+			og := h.aws.asgs[h.cfgs[other].CloudProviderGroupName]
+			og.Instances = append(og.Instances, SimInst{instIDOfProviderID(n.ProviderID), "az-a"})
+			n.ProviderID = providerID("az-a", instIDOfProviderID(n.ProviderID))
+			if r.chance(60) {
+				n.Taints = append(n.Taints, WTaint{Key: forceKey, Effect: "NoSchedule", Raw: "x"})
+			} else {
+				n.Taints = append(n.Taints, WTaint{Key: escKey, Effect: "NoSchedule", Rel: true, Ago: 3 * hard})
+			}
+			return "mislabelled-node"
+		}
 		if len(nodes) > 1 {
 			// creation-time ties
 			a, b := pickNode(), pickNode()
